@@ -386,8 +386,9 @@ pub fn erl_eq(a: &RefVal, b: &RefVal) -> bool {
     use RefVal::*;
     match (a, b) {
         (Map(x), Map(y)) => {
-            // keys match exactly (=:=), values with ==
-            x.len() == y.len() && x.iter().all(|(k, v)| y.iter().any(|(k2, v2)| exact_eq(k, k2) && erl_eq(v, v2)))
+            // keys match in map-key order (integer 1 and float 1.0 are different keys; +0.0 and -0.0 are
+            // the same key, consistent with the order), values with ==
+            x.len() == y.len() && x.iter().all(|(k, v)| y.iter().any(|(k2, v2)| erl_cmp_k(k, k2, true) == ErlOrd::Equal && erl_eq(v, v2)))
         }
         (Tuple(x), Tuple(y)) => x.len() == y.len() && x.iter().zip(y).all(|(p, q)| erl_eq(p, q)),
         (List(x, tx), List(y, ty)) => x.len() == y.len() && x.iter().zip(y).all(|(p, q)| erl_eq(p, q)) && erl_eq(tx, ty),
